@@ -53,7 +53,8 @@ theorem emLoop_fail (fix : Bool) (f : Nat) (bot : Nat → Nat) (left above : Lis
   · rfl
 
 theorem emLoop_hit (fix : Bool) (f : Nat) (bot : Nat → Nat) (left above : List Delim) (c o : Delim) (below : List Delim)
-    (hc : c.canClose = true) (hh : (emSearch c (bot (bottomIx fix c)) left).hit = some (o, below)) :
+    (hc : c.canClose = true) (hh : (emSearch c (bot (bottomIx fix c)) left).hit = some (o, below))
+    (hx : tildeExit o c = false) :
     emLoop fix (f + 1) bot left (c :: above) =
       (emLoop fix f bot (shrink o (useChars o c) below) (shrink c (useChars o c) above)).map
         (1 + (emSearch c (bot (bottomIx fix c)) left).cost + ·) := by
@@ -63,7 +64,7 @@ theorem emLoop_hit (fix : Bool) (f : Nat) (bot : Nat → Nat) (left above : List
     rw [hh] at h2
     simp only [Option.some.injEq, Prod.mk.injEq] at h2
     obtain ⟨rfl, rfl⟩ := h2
-    rfl
+    simp [hx]
   · rename_i h2; rw [hh] at h2; exact absurd h2 (by simp)
 
 theorem emLoop_fam (m : Nat) : ∀ (fuel : Nat) (bot : Nat → Nat) (L : List Delim) (p : Nat),
@@ -92,7 +93,7 @@ theorem emLoop_fam (m : Nat) : ∀ (fuel : Nat) (bot : Nat → Nat) (L : List De
     rw [show f + 3 = (f + 2) + 1 from rfl,
       emLoop_fail false (f + 2) bot (D2 p :: L) _ (D1 (p + 1)) rfl (by rw [hb2]; exact s2)]
     rw [hb2, s1, s3']
-    simp only [alwaysRaise, Bool.false_and, Bool.false_or, Bool.not_true, Bool.false_eq_true, if_false]
+    simp only [alwaysRaise, Bool.false_or, Bool.not_true, Bool.false_eq_true, if_false]
     rw [show (if (D1 (p + 1)).canOpen = true then D1 (p + 1) :: D2 p :: L else D2 p :: L) = D1 (p + 1) :: D2 p :: L from rfl]
     -- step 3: `**` again
     rw [show f + 2 = (f + 1) + 1 from rfl, emLoop_skip false (f + 1) bot _ _ (D2 (p + 2)) rfl]
@@ -101,7 +102,7 @@ theorem emLoop_fam (m : Nat) : ∀ (fuel : Nat) (bot : Nat → Nat) (L : List De
     have hs4 : emSearch (D1 (p + 3)) 0 (D2 (p + 2) :: D1 (p + 1) :: D2 p :: L)
         = ⟨2, true, some (D1 (p + 1), D2 p :: L)⟩ := by
       simp [emSearch, D1, D2, oddMatch]
-    rw [emLoop_hit false f bot _ _ (D1 (p + 3)) (D1 (p + 1)) (D2 p :: L) rfl (by rw [hb4, hs4])]
+    rw [emLoop_hit false f bot _ _ (D1 (p + 3)) (D1 (p + 1)) (D2 p :: L) rfl (by rw [hb4, hs4]) rfl]
     rw [hb4, hs4]
     rw [show shrink (D1 (p + 1)) (useChars (D1 (p + 1)) (D1 (p + 3))) (D2 p :: L) = D2 p :: L from rfl]
     rw [show shrink (D1 (p + 3)) (useChars (D1 (p + 1)) (D1 (p + 3))) (emFam (p + 4) m) = emFam (p + 4) m from rfl]
